@@ -991,7 +991,7 @@ def verify_fn(fn, spec_fn, confirm):
     st = State(args, requires)
     params = [a.arg for a in fnode.args.args]
     def V(name, status, detail, kind='ensures'):
-        v = Verdict(name, 'Z', status, detail, 0.0, fn, kind, 'z3'); v.confirm = confirm
+        v = Verdict(name, 'Z', status, detail, 0.0, fn, kind, 'z3-new x2 | cvc5 (portfolio, first unsat)'); v.confirm = confirm
         return v
     try:
         ndef = len(fnode.args.defaults)
@@ -1042,6 +1042,8 @@ def verify_fn(fn, spec_fn, confirm):
     tot = time.time() - t0
     for v in out:
         v.seconds = tot / max(1, len(out))
+        if v.status == 'discharged' and BACKENDS:
+            v.detail = (str(v.detail) + ' ' if v.detail else '') + '[portfolio wins so far in this process: ' + ', '.join(f'{k}: {n}' for k, n in sorted(BACKENDS.items())) + ']'
     return out
 
 
